@@ -294,7 +294,10 @@ func init() {
 		},
 		"cmp.Compare": nil, // placeholder removed below
 		"internal/bytealg.MakeNoZero": func(m *Machine, fr *frame, a []value) value {
-			n := int(a[0].(int64))
+			n := int(m.concretizeInt(a[0], intInfo{64, true}))
+			if n < 0 || n > 1<<24 {
+				m.rtPanic("makeslice: len out of range")
+			}
 			s := make([]value, n)
 			for i := range s {
 				s[i] = int64(0)
